@@ -93,11 +93,21 @@ func cmdRun(args []string) int {
 	// select contracts
 	var dirs []string
 	for d, ps := range specs {
+		found := false
 		for _, c := range ps.contracts {
 			if hasProp(c, o.prop) {
-				dirs = append(dirs, d)
-				break
+				found = true
 			}
+		}
+		for _, sw := range ps.sweeps {
+			for _, p := range sw.Props {
+				if p == o.prop {
+					found = true
+				}
+			}
+		}
+		if found {
+			dirs = append(dirs, d)
 		}
 	}
 	sort.Strings(dirs)
@@ -117,9 +127,20 @@ func cmdRun(args []string) int {
 	var results []*FuncResult
 	var all []*Obligation
 	var cts []*Contract
-	for _, d := range dirs {
+	var allDirs []string
+	for d := range eng.specs {
+		allDirs = append(allDirs, d)
+	}
+	sort.Strings(allDirs)
+	for _, d := range allDirs {
 		for _, c := range eng.specs[d].contracts {
 			if !hasProp(c, o.prop) {
+				continue
+			}
+			if c.Fn == nil && !c.IsLemma {
+				continue // package not loaded in this run
+			}
+			if c.IsLemma && (len(c.Ensures) == 0 || c.Ensures[0].Fn == nil) {
 				continue
 			}
 			if o.only != "" && !strings.Contains(c.Key, o.only) {
